@@ -41,7 +41,7 @@ class ReGen:
         k = self.r.random()
         if k < 0.45:
             return ""
-        q = self.r.choice(["*", "+", "?", "{2}", "{1,}", "{2,}", "{1,2}", "{0,2}", "{1,3}", "{3}"])
+        q = self.r.choice(["*", "+", "?", "{2}", "{1,}", "{2,}", "{1,2}", "{0,2}", "{1,3}", "{3}", "{1}", "{1,1}", "{0}", "{0,1}", "{0,}", "{2,2}"])
         if self.r.random() < 0.3:
             q += "?"
         return q
@@ -92,10 +92,13 @@ class ReGen:
         return self.seq(d)
 
     def qatom(self, d):
+        saved_closed = list(self.closed)
         v, p, nl = self.atom(d)
         if nl:
             return (v, p, True)           # a body that can match the empty string is never repeated
         q = self.quant()
+        if q.startswith("{0}"):
+            self.closed = saved_closed    # a group repeated zero times never takes part: engines disagree on a reference to it (vore: unknown name), so none is generated
         return (v + q, p + q, q.startswith("{0") or q[:1] in ("*", "?"))
 
     def seq(self, d):
